@@ -37,8 +37,10 @@ type connHooks struct {
 	rec       *Rec
 	side      string
 	mu        sync.Mutex
-	cur       int  // slot being established
-	reject    bool // verdict for it
+	cur       int    // slot being established
+	reject    bool   // verdict for it
+	mode      string // "panic": the hook panics; "idmod": it assigns an id of its own and then wraps the connection
+	custom    string // the id assigned in mode idmod
 	slotOf    map[interface{}]int
 	est       map[int]int // accept/dial hook runs per slot
 	disc      map[int]int // disconnect hook runs per slot
@@ -52,14 +54,36 @@ func newConnHooks(rec *Rec, side string) *connHooks {
 func (h *connHooks) Name() string { return "verif-conn-hooks-" + h.side }
 func (h *connHooks) arm(slot int, reject bool) {
 	h.mu.Lock()
-	h.cur, h.reject = slot, reject
+	h.cur, h.reject, h.mode = slot, reject, ""
 	h.mu.Unlock()
 }
+func (h *connHooks) armMode(mode, custom string) {
+	h.mu.Lock()
+	h.mode, h.custom = mode, custom
+	h.mu.Unlock()
+}
+
+// passConn wraps a connection without changing anything (what a transport-wrapping plugin hands to ModifySocket).
+type passConn struct{ net.Conn }
+
 func (h *connHooks) enter(s interface{}) *erpc.Status {
 	h.mu.Lock()
-	defer h.mu.Unlock()
+	mode, custom := h.mode, h.custom
 	h.slotOf[s] = h.cur
 	h.est[h.cur]++
+	h.mu.Unlock()
+	switch mode {
+	case "panic":
+		var m map[string]int
+		m["boom"] = 1 // the hook panics
+	case "idmod":
+		if ps, ok := s.(erpc.PreSession); ok {
+			ps.SetID(custom)
+			ps.ModifySocket(func(conn net.Conn) (net.Conn, erpc.ProtoFunc) { return &passConn{conn}, nil })
+		}
+	}
+	h.mu.Lock()
+	defer h.mu.Unlock()
 	if h.reject {
 		return erpc.NewStatus(403, "Forbidden", "scripted rejection")
 	}
@@ -246,6 +270,11 @@ func runPeer(rec *Rec, sc *PeerScenario, n int) {
 			slots[st.Slot] = sl
 			sh.arm(st.Slot, st.Sv == "reject")
 			ch.arm(st.Slot, st.Cv == "reject")
+			customID := fmt.Sprintf("custom-%d-%d", n, st.Slot)
+			if st.Sv == "panic" || st.Sv == "idmod" {
+				sh.armMode(st.Sv, customID)
+			}
+			srvOK := st.Sv == "ok" || st.Sv == "idmod"
 			cname := fmt.Sprintf("PC%d.%d", n, st.Slot)
 			switch st.Path {
 			case "serveconn", "listen":
@@ -267,7 +296,10 @@ func runPeer(rec *Rec, sc *PeerScenario, n int) {
 				}
 			}
 			// wait for what the two verdicts lead to (bounded; whatever is observed afterwards is recorded)
-			if st.Sv == "ok" && st.Cv == "ok" {
+			if st.Sv == "idmod" {
+				sl.cname = customID // the id the server side lists the session under
+			}
+			if srvOK && st.Cv == "ok" {
 				WaitUntil(5*time.Second, func() bool {
 					if sl.ss == nil && sl.cname != "" {
 						if s, ok := srv.GetSession(sl.cname); ok {
